@@ -1,7 +1,7 @@
 ------------------------- MODULE MCPyramidLifecycle -------------------------
 (* Wrapper of PyramidLifecycle.tla for checks/g02.py.                          *)
-(*   Spec        (PyramidLifecycle) every command sequence up to MaxCmds: the  *)
-(*               theorems, and the refutations of the "ideal" statements;      *)
+(*   AllSpec     every command sequence up to MaxCmds (PyramidLifecycle!Next):  *)
+(*               the theorems, and the refutations of the "ideal" statements;  *)
 (*   ScriptSpec  the prefix tree of given command sequences (Scripts), with    *)
 (*               the history as a variable, so that every emitted state says   *)
 (*               which commands led to it;                                     *)
@@ -30,6 +30,15 @@ ScriptNext == \E s \in Scripts : /\ Len(hist) < Len(s)
 ScriptSpec == HInit /\ [][ScriptNext]_hvars
 FreeNext == \E cmd \in Commands : Step(cmd)
 FreeSpec == HInit /\ [][FreeNext]_hvars
+\* every command sequence, without the history (states that differ only in how they were reached are one state)
+AllNext == Next /\ UNCHANGED <<hist, act>>
+AllSpec == HInit /\ [][AllNext]_hvars
+\* ... remembering the last command only (for readable counterexamples of the refuted statements)
+CmdStr(cmd) == ToString(<<cmd.op, cmd.d, cmd.reg, cmd.mode, cmd.src, cmd.fmt>>)
+LastNext == \E cmd \in Commands : Do(cmd) /\ act' = CmdStr(cmd) /\ UNCHANGED hist
+LastSpec == HInit /\ [][LastNext]_hvars
+\* ... with the cfg's VIEW ViewVars two states that differ only in `act` are one state
+ViewVars == vars
 
 \* ---- emitter (always-true invariant)
 Order == GeneratePos(MaxDepth)
@@ -44,7 +53,11 @@ Record == [hist |-> hist, act |-> act,
            wtml |-> [ex |-> wtml.ex, levels |-> wtml.levels, ftype |-> wtml.ftype,
                      url |-> IF wtml.ex THEN W!Template("L/Y/YX", Ext(wtml.ftype)) ELSE <<>>],
            bld |-> [fmt |-> bld.fmt, levels |-> bld.levels],
-           ghost |-> [base |-> base, cons |-> cons, fresh |-> fresh, shrunk |-> shrunk, cur |-> wtml.cur],
-           feed |-> Feed]
+           ghost |-> [base |-> base, cons |-> cons, fresh |-> fresh, removed |-> removed, rebased |-> rebased, cur |-> wtml.cur],
+           feed |-> Feed,
+           \* truth values of the statements the code does not keep (a FALSE is TLC's witness that the statement is refuted)
+           ideal |-> [NoOrphanAfterCascade |-> NoOrphanAfterCascade, AlwaysIdealAfterCascade |-> AlwaysIdealAfterCascade,
+                      NothingDeeperThanBase |-> NothingDeeperThanBase, NoStaleOutput |-> NoStaleOutput,
+                      WtmlAlwaysDeepest |-> WtmlAlwaysDeepest, TransformCommutesWithMerge |-> TransformCommutesWithMerge]]
 Emit == PrintT(<<"S", ToJson(Record)>>)
 =============================================================================
